@@ -115,6 +115,43 @@ func c02Scenarios(tier string) []*Scenario {
 			})
 		}
 	}
+	// tasks without commands (a task that only declares depends_on is a valid definition): they are scheduled like any
+	// other task - after their dependencies, through the runner, before their dependents
+	for n := 1; n <= 3; n++ {
+		for _, g := range allDAGs(n) {
+			for e := 0; e <= n; e++ {
+				g, e := g, e
+				script := map[string][]string{}
+				label := "all"
+				if e < n {
+					script[taskNames[e]] = []string{}
+					label = taskNames[e]
+				} else {
+					if n == 1 {
+						continue
+					}
+					for i := 0; i < n; i++ {
+						script[taskNames[i]] = []string{}
+					}
+				}
+				scs = append(scs, &Scenario{
+					Name:  fmt.Sprintf("emptyscript/dag%d/%s/empty=%s", n, graphString(g), label),
+					Desc:  "one job whose named task(s) have no commands; every completion order, every schedule up to the bound",
+					Opts:  func() WorldOpts { return WorldOpts{Defs: defsOf(PipeCfg{Conc: 1, QL: -1, Graph: g, Script: script})} },
+					Setup: func(w *World) { w.SpawnDriver(Op{Kind: "S", Pipeline: "p"}) },
+					Check: func(w *World, x *Exec) []Violation {
+						vs := allMonitors(w, false)
+						if j := w.dump().Job(1); j == nil || !plainSuccess(j) {
+							vs = append(vs, Violation{Property: "C02", Rule: "dag-completes", Norm: "acyclic-graph-does-not-complete",
+								Msg: fmt.Sprintf("a job with acyclic graph {%s} (tasks without commands: %s) whose tasks all succeed does not end as a plain success: %s", graphString(g), label, jobStr(j))})
+						}
+						return vs
+					},
+					NoTick: true, Bound: intp(1),
+				})
+			}
+		}
+	}
 	// the failure / allow_failure family (same scenarios as C08; here the run-once / dependencies-first monitor decides)
 	for _, sc := range c08Scenarios(tier) {
 		if tier != "thorough" && !strings.HasPrefix(sc.Name, "dag1/") && !strings.HasPrefix(sc.Name, "dag2/") {
